@@ -240,117 +240,6 @@ pub mod proofs {
         core::mem::forget(d);
     }
 
-    fn put_rec(buf: &mut [u8], off: usize, ty: u8, name: &[u8]) {
-        buf[off] = 1; // d_ino != 0
-        buf[off + 16] = 24; // d_reclen
-        buf[off + 17] = 0;
-        buf[off + 18] = ty;
-        let mut i = 0;
-        while i < name.len() {
-            buf[off + 19 + i] = name[i];
-            i += 1;
-        }
-    }
-
-    /// Directory::remove_all over a ghost tree: a root with two entries (each a directory, a regular file
-    /// or a symlink; the first may also be "." or ".."), the first sub-directory that gets opened holding one
-    /// non-directory entry, every openat / unlinkat / answer symbolic (success or any errno).  The calls
-    /// made are exactly, in order: for a directory entry openat(dir, name), the removal of its content
-    /// through the new descriptor, then unlinkat(dir, name, AT_REMOVEDIR); for anything else (symlinks
-    /// included: never followed, never opened) unlinkat(dir, name, 0); "." and ".." are neither opened nor
-    /// removed; the walk stops at the first failing call and returns its errno; Ok only if every call
-    /// succeeded; the sub-directory's descriptor is closed again.
-    #[kani::proof]
-    #[kani::unwind(50)]
-    pub fn c14_remove_all_walks_the_tree() {
-        const DT_DIR: u8 = 4;
-        const AT_REMOVEDIR: usize = 0x200;
-        let mut root = [0u8; 48];
-        let mut child = [0u8; 24];
-        let t0: u8 = kani::any();
-        let t1: u8 = kani::any();
-        let tc: u8 = kani::any();
-        kani::assume(t0 == 4 || t0 == 8 || t0 == 10);
-        kani::assume(t1 == 4 || t1 == 8 || t1 == 10);
-        kani::assume(tc == 8 || tc == 10 || tc == 1);
-        let dots: u8 = kani::any(); // 0: "a", 1: ".", 2: ".."
-        kani::assume(dots <= 2 && (dots == 0 || t0 == DT_DIR));
-        let n0: &[u8] = if dots == 0 { b"a" } else if dots == 1 { b"." } else { b".." };
-        put_rec(&mut root, 0, t0, n0);
-        put_rec(&mut root, 24, t1, b"b");
-        put_rec(&mut child, 0, tc, b"c");
-        kernel::reset();
-        kernel::set_mode(kernel::MODE_DENTS | kernel::MODE_TREE | kernel::MODE_FDS | kernel::MODE_ZERO_OR_ERR);
-        kernel::set_dents(root.as_ptr(), 48);
-        kernel::set_dents2(child.as_ptr(), 24);
-        kernel::set_tree_root(6);
-        kernel::fd_preexisting(6);
-        let d: Directory = unsafe { core::mem::transmute::<i32, Directory>(6) };
-        let res = d.remove_all();
-        core::mem::forget(d);
-        // expected call sequence (nr, dirfd-is-root, name, flags); the child's content belongs to the first directory opened
-        let cfd = kernel::tree_child_fd();
-        let mut exp_nr = [0usize; 6];
-        let mut exp_root = [true; 6];
-        let mut exp_name = [b'?'; 6];
-        let mut exp_flags = [0usize; 6];
-        let mut m = 0;
-        let mut first_dir_done = false;
-        let mut i = 0;
-        while i < 2 {
-            let (t, name) = if i == 0 { (t0, b'a') } else { (t1, b'b') };
-            if t == DT_DIR {
-                if !(i == 0 && dots != 0) {
-                    exp_nr[m] = sc::nr::OPENAT; exp_name[m] = name; m += 1;
-                    if !first_dir_done {
-                        first_dir_done = true;
-                        exp_nr[m] = sc::nr::UNLINKAT; exp_root[m] = false; exp_name[m] = b'c'; exp_flags[m] = 0; m += 1;
-                    }
-                    exp_nr[m] = sc::nr::UNLINKAT; exp_name[m] = name; exp_flags[m] = AT_REMOVEDIR; m += 1;
-                }
-            } else {
-                exp_nr[m] = sc::nr::UNLINKAT; exp_name[m] = name; exp_flags[m] = 0; m += 1;
-            }
-            i += 1;
-        }
-        let n = kernel::treelog_len();
-        assert!(n <= m, "no_call_beyond_the_expected_sequence");
-        let mut k = 0;
-        let mut failed_at: Option<usize> = None;
-        while k < n {
-            let r = kernel::treelog(k);
-            assert!(r.nr == exp_nr[k], "calls_in_the_expected_order");
-            assert!(r.len == 1 && r.name[0] == exp_name[k], "call_names_the_entry");
-            assert!(if exp_root[k] { r.dirfd == 6 } else { r.dirfd == cfd && cfd != 6 }, "call_is_relative_to_the_directory_that_holds_the_entry");
-            if r.nr == sc::nr::UNLINKAT {
-                assert!(r.flags == exp_flags[k], "AT_REMOVEDIR_exactly_for_directories");
-            }
-            if kernel::is_err(r.ret) {
-                assert!(k + 1 == n, "walk_stops_at_the_first_failing_call");
-                failed_at = Some(k);
-            }
-            k += 1;
-        }
-        match res {
-            Ok(()) => {
-                assert!(failed_at.is_none(), "ok_only_if_no_call_failed");
-                assert!(n == m, "ok_only_after_every_entry_was_removed");
-            }
-            Err(e) => {
-                assert!(failed_at.is_some(), "error_only_if_a_call_failed");
-                let r = kernel::treelog(failed_at.unwrap());
-                let want = (0isize - r.ret as isize) as i32;
-                match e {
-                    tiny_std::Error::Os { code, .. } => assert!(code.raw() == want, "errno_of_the_failing_call"),
-                    _ => assert!(false, "errno_of_the_failing_call"),
-                }
-            }
-        }
-        assert!(kernel::fds_open_by_callee() == 0, "sub_directory_descriptor_closed_again");
-        kani::cover!(res.is_ok() && n == 5, "two directories, the first with content");
-        kani::cover!(res.is_ok() && dots == 2, "dot-dot entry skipped");
-    }
-
     /// stand-in for rusl::unistd::stat_fd (constant UnixStr::EMPTY: const fat pointer outside Kani's subset)
     pub fn stub_stat_fd(fd: rusl::platform::Fd) -> rusl::Result<rusl::platform::Stat> {
         let ret = unsafe { sc::syscall4(sc::nr::NEWFSTATAT, fd.value() as usize, 0, 0, 0) };
